@@ -192,10 +192,13 @@ def main():
         "distribution": stats,
         "exhaustive": bool(stats.get("exhaustive", False)),
         "known_findings_reported": [k["id"] for k in known],
+        # the Lean structured semantics (Spec/Sem.lean) run by the model driver on every program `unflatten` recognises
+        "structured_semantics": dict(C.SPEC_STATS),
     }
     C.write_evidence(prop, tier, seed, cov, time.time() - t0, n_viol, getattr(mod, "ASSUMPTIONS", []))
     print(f"{prop} {tier}: {len(cases)} cases, {cov['evaluations']} requests, theorems {len(discharged)}/{len(theorems)}, "
-          f"violations {n_viol}, {time.time() - t0:.1f}s")
+          f"violations {n_viol}, {time.time() - t0:.1f}s"
+          + (f", structured {C.SPEC_STATS['structured']}/{C.SPEC_STATS['requests']}" if C.SPEC_STATS["requests"] else ""))
     return 1 if n_viol else 0
 
 
